@@ -216,7 +216,9 @@ func (m *errMonitor) jsonShape(e *gqlerror.Error, bad func(key, detail string), 
 		bad("error/json-decode "+where, "the encoded error does not decode: "+err.Error()+" "+string(b))
 		return
 	}
-	if back.Message != e.Message || !reflect.DeepEqual(back.Locations, e.Locations) || !samePath(back.Path, e.Path) {
+	// (a message that quotes bytes of the request which are not valid UTF-8 comes back with U+FFFD in their place: that
+	// is what JSON is, not a defect of the error)
+	if back.Message != strings.ToValidUTF8(e.Message, "\ufffd") || !reflect.DeepEqual(back.Locations, e.Locations) || !samePath(back.Path, e.Path) {
 		bad("error/json-roundtrip "+where, fmt.Sprintf("decoded error differs: %+v vs %+v", back, *e))
 	}
 }
@@ -444,6 +446,27 @@ func runC20(c *explore.Ctx) {
 				c20Run(m, c20Input{Entry: "ParseQuery", Sources: []string{q + " }"}, Names: []string{"named.graphql"}})
 				c20Run(m, c20Input{Entry: "ParseSchema", Sources: []string{"\"\"\"\n説明文説明文説明文\n\"\"\" type A { f: Int } } " + q}, Names: []string{"named.graphql"}})
 				c20Run(m, c20Input{Entry: "LoadSchema", Sources: []string{"type Query { a: Int }", "\"\"\"\n説明文説明文説明文\n\"\"\" type A { f: Missing }"}, Names: []string{"a.graphql", "b.graphql"}})
+			}
+		}
+		if c.Shard == 0 {
+			// a lexical error exactly where a value is expected (argument, list item, object field, variable default,
+			// directive argument, type-system default): every context × every kind of lexical error, from named sources
+			lexErrs := []string{`"x`, `"x\q"`, `007`, `1.`, `?`, `"\u12"`, "\"a\nb\"", `"""x`, `.5`, `1e`}
+			for _, le := range lexErrs {
+				for _, ctx := range []string{`{ f(a: %s) }`, `{ f(a: [1, %s]) }`, `{ f(a: {k: %s}) }`, `query($n: Int = %s) { f }`, `{ f @d(x: %s) }`, `{ f(a: [[{k: [%s]}]]) }`, `fragment F on T @d(x: %s) { f }`} {
+					s.States++
+					q := strings.Replace(ctx, "%s", le, 1)
+					c20Run(m, c20Input{Entry: "ParseQuery", Sources: []string{q}, Names: []string{"ops.graphql"}})
+					c20Run(m, c20Input{Entry: "ParseQueryWithTokenLimit", Sources: []string{q}, Names: []string{"ops.graphql"}, Limit: 100})
+					c20Run(m, c20Input{Entry: "LoadQuery", Query: q})
+				}
+				for _, ctx := range []string{`type Q { f(a: String = %s): Int }`, `input I { a: [Int] = [%s] }`, `type Q @d(x: %s) { f: Int }`, `directive @d(x: Int = %s) on FIELD`, `extend schema @d(x: {k: %s})`} {
+					s.States++
+					q := strings.Replace(ctx, "%s", le, 1)
+					c20Run(m, c20Input{Entry: "ParseSchema", Sources: []string{q}, Names: []string{"types.graphql"}})
+					c20Run(m, c20Input{Entry: "ParseSchemas", Sources: []string{"scalar Ok", q}, Names: []string{"first.graphql", "types.graphql"}})
+					c20Run(m, c20Input{Entry: "LoadSchema", Sources: []string{"type Query { a: Int }", q}, Names: []string{"a.graphql", "b.graphql"}})
+				}
 			}
 		}
 		if c.Shard == 0 {
